@@ -222,7 +222,7 @@ func c08Gen(rt *rapid.T) c08Case {
 	c.nData = 1
 	switch c.op {
 	case "Transpose":
-		shape := genShape(1, 4, 5, 300).Draw(rt, "shape")
+		shape := genShape(1, 4, 5, 1500).Draw(rt, "shape")
 		r := len(shape)
 		perm := rapid.Permutation(seq(r)).Draw(rt, "perm")
 		p64 := make([]int64, r)
@@ -248,7 +248,7 @@ func c08Gen(rt *rapid.T) c08Case {
 			}
 		}
 	case "Concat":
-		base := genShape(1, 4, 4, 120).Draw(rt, "shape")
+		base := genShape(1, 4, 4, 600).Draw(rt, "shape")
 		r := len(base)
 		axis := rapid.IntRange(0, r-1).Draw(rt, "axis")
 		k := rapid.IntRange(1, 4).Draw(rt, "nInputs")
@@ -291,7 +291,7 @@ func c08Gen(rt *rapid.T) c08Case {
 			c.ref = refConcat(shapes, axis)
 		}
 	case "Slice":
-		shape := genShape(1, 4, 6, 400).Draw(rt, "shape")
+		shape := genShape(1, 4, 6, 1500).Draw(rt, "shape")
 		r := len(shape)
 		naxes := rapid.IntRange(1, r).Draw(rt, "naxes")
 		axes := rapid.Permutation(seq(r)).Draw(rt, "axesPerm")[:naxes]
@@ -378,7 +378,7 @@ func c08Gen(rt *rapid.T) c08Case {
 			c.feature = "unit-extent"
 		}
 	case "Gather":
-		shape := genShape(1, 4, 5, 300).Draw(rt, "shape")
+		shape := genShape(1, 4, 5, 1500).Draw(rt, "shape")
 		r := len(shape)
 		axis := rapid.IntRange(0, r-1).Draw(rt, "axis")
 		ishape := genShape(0, 2, 3, 9).Draw(rt, "ishape")
@@ -427,7 +427,7 @@ func c08Gen(rt *rapid.T) c08Case {
 			}
 		}
 	case "Expand":
-		p := genBroadcastPair(4, 4, 300).Draw(rt, "pair")
+		p := genBroadcastPair(4, 4, 1500).Draw(rt, "pair")
 		shape, target := p[0], p[1]
 		if len(target) == 0 {
 			target = []int{1}
